@@ -249,7 +249,7 @@ cpdef str idcode(str msg):
 cpdef str squawk(str binstr):
     """Compute identity (squawk code)."""
 
-    if len(binstr) != 13 or set(binstr) != set('01'):
+    if len(binstr) != 13 or not set(binstr).issubset(set("01")):
         raise RuntimeError("Input must be 13 bits binary string")
 
     cdef bytearray _mbin = bytearray(binstr.encode())
